@@ -285,15 +285,15 @@ def shard_gcd_big(arg):
 
 def main(ctx):
     jobs = []
-    top = ctx.pick(1 << 20, 1 << 23)
+    top = ctx.pick(1 << 20, 1 << 25)
     step = top // (4 * ctx.jobs)
     edges = list(range(-5, top, step)) + [top + 1]
     for lo, hi in zip(edges, edges[1:]):
         jobs.append((shard_range, "is_prime-all-n", (lo, hi)))
-    npt = ctx.pick(1 << 16, 1 << 17)
+    npt = ctx.pick(1 << 16, 1 << 19)
     for ch in common.chunks(list(range(-3, npt)), ctx.jobs):
         jobs.append((shard_next_prime, "next_prime-all-n", (ch[0], ch[-1] + 1)))
-    fns = list(range(-2, ctx.pick(1 << 16, 1 << 17)))
+    fns = list(range(-2, ctx.pick(1 << 16, 1 << 19)))
     around = [1229 * 1229 + d for d in range(-40, 41)] + \
         [1223 * 1229, 1229 * 1231, 1231 * 1237, 1229 ** 3, 1231 ** 2,
          2 * 1229 * 1231, 1229 * 1231 * 1237, 104729 * 104723, 104729 ** 2,
